@@ -38,19 +38,41 @@ func VH17a_send() {
 	lab := "C17/" + proto
 	sock := vp.New(proto)
 	vt.Install()
-	outcome := verif.Choice("outcome", 6)
-	names := []string{"success", "timeout", "closed", "no-peers", "best-effort", "shared"}
+	outcome := verif.Choice("outcome", 7)
+	names := []string{"success", "timeout", "closed", "no-peers", "best-effort", "shared", "peer-gone"}
 	lab += "/" + names[outcome]
 	var p1 *vt.Pipe
+	if outcome == 1 || outcome == 4 || outcome == 6 {
+		// a short per-connection queue, so that a stalled peer makes the send time out / drop within a few messages
+		sock.SetOption(mangos.OptionWriteQLen, 1)
+	}
 	if outcome != 3 {
 		side := vt.Listen(sock, "a")
 		p1 = side.Peer("p1")
 	}
+	// raw REP / RESPONDENT route on the header: take the routing header of a request that really arrived
+	var route []byte
+	if p1 != nil && (proto == "xrep" || proto == "xrespondent") {
+		p1.Deliver([]byte{0x80, 0, 0, 1, 'q'})
+		verif.Quiesce()
+		rm, rerr := sock.RecvMsg()
+		verif.Assert(rerr == nil && len(rm.Header) == 8, lab+"/raw-request-header")
+		if rerr != nil {
+			return
+		}
+		route = append(route, rm.Header...)
+		rm.Free()
+	}
+	raw := proto[0] == 'x'
 	body := verif.Bytes("body", 3)
 	mk := func() *mangos.Message {
 		m := mangos.NewMessage(len(body))
 		m.Body = append(m.Body, body...)
-		hdrFor(proto, m)
+		if route != nil {
+			m.Header = append(m.Header, route...)
+		} else {
+			hdrFor(proto, m)
+		}
 		return m
 	}
 	switch outcome {
@@ -70,16 +92,34 @@ func VH17a_send() {
 			verif.Assume(false)
 		}
 		p1.SendMode = vt.SendBlock
+	case 6:
+		p1.SendMode = vt.SendBlock
 	}
+	answering := proto == "rep" || proto == "respondent"
 	for i := 0; i < 5; i++ {
+		if answering && p1 != nil && !p1.Closed {
+			// a cooked REP / RESPONDENT only sends in answer to a request it has received
+			p1.Deliver([]byte{0x80, 0, 0, byte(i + 1), 'q'})
+			verif.Quiesce()
+			if rm, rerr := sock.RecvMsg(); rerr == nil {
+				rm.Free()
+			}
+		}
 		m := mk()
+		hdr0 := append([]byte{}, m.Header...)
 		if outcome == 5 {
 			m.Clone() // the caller keeps a second reference to the (now shared) message
 		}
 		var err error
 		g := verif.Go("send", func() { err = sock.SendMsg(m) })
 		verif.Quiesce()
-		if !g.Done() {
+		if outcome == 6 && !g.Done() {
+			// the send is blocked on the stalled peer: the peer goes away
+			p1.Drop()
+			verif.Quiesce()
+		}
+		// let the deadline of this very call pass (deadline timers of earlier, completed calls may still be pending)
+		for k := 0; k < 8 && !g.Done(); k++ {
 			if !verif.FireTimer() {
 				break // blocked without deadline: not this outcome
 			}
@@ -89,8 +129,13 @@ func VH17a_send() {
 		}
 		if err != nil {
 			verif.Reach("failed-send")
+			verif.Reach("failed/" + names[outcome])
 			verif.Assert(!verif.Released(m), lab+"/failed-send-released-the-callers-message")
 			verif.Assert(len(m.Body) == 3 && verif.BytesEq(m.Body, body), lab+"/failed-send-changed-the-body")
+			if raw {
+				// on a raw socket the header is the application's too: a failed send hands it back as it was
+				verif.Assert(len(m.Header) == len(hdr0) && verif.BytesEq(m.Header, hdr0), lab+"/failed-send-changed-the-header")
+			}
 			break
 		}
 		if outcome == 5 {
